@@ -654,9 +654,11 @@ def migration16(tdset):
       parsed_options = json.loads(widget_options)
     except Exception:
       return None   # If invalid widgetOptions, skip this column.
+    if not isinstance(parsed_options, dict):
+      return None   # Valid JSON, but not an object: nothing to convert.
 
     visible_col_id = parsed_options.pop('visibleCol', None)
-    if not visible_col_id:
+    if not visible_col_id or not isinstance(visible_col_id, str):
       return None
 
     # Find visible_col_id as the column name in the appropriate table.
